@@ -654,7 +654,7 @@ def run_ir_call(tier, ctx):
                 return out
         exhausted = True
         outcomes = set()
-        maxh = 2 if tier != 'thorough' else 3
+        maxh = 2 if tier != 'thorough' else 4
         for entry in ('IB__adapt__', 'IB__call__'):
             for nh in range(maxh + 1):
                 w = _CallWorld(irfun, cstr, nh, entry)
@@ -872,8 +872,8 @@ HARNESSES = [
             bounds='LLVM IR (clang-14 -O0 + mem2reg) of IB__call__ and IB__adapt__ (inlined) from the current C source; every path; every C-API '
                    'call that can run Python or fail is a decision (arguments with/without alternate, __conform__ lookup 4 outcomes, '
                    '_call_conform / custom __adapt__ / each hook: None, value, raises; providedBy(obj): specification, proxy, fails; provided '
-                   'or not; _CALL_CUSTOM_ADAPT present or not); adapter_hooks of length 0..2 (thorough 3)',
-            outside='more than 3 hooks; hooks that change adapter_hooks while they run (e_order covers them concretely); allocation failure',
+                   'or not; _CALL_CUSTOM_ADAPT present or not); adapter_hooks of length 0..2 (thorough 4)',
+            outside='more than 4 hooks; hooks that change adapter_hooks while they run (e_order covers them concretely); allocation failure',
             oracle='the documented order as an automaton over the same event alphabet: it must ask for exactly the steps the C path '
                    'performed, in that order, and give the same result / exception; frame reference balance on every path; findings are '
                    'replayed on the real C build against the Python reference implementation (and for reference growth)',
